@@ -6,6 +6,9 @@ import sys
 VERIF = os.path.dirname(os.path.dirname(os.path.abspath(__file__)))
 sys.path.insert(0, VERIF)
 sys.setrecursionlimit(20000)
+import warnings  # noqa: E402
+
+warnings.filterwarnings('ignore', category=RuntimeWarning, message='invalid value encountered')
 
 
 def main():
